@@ -245,19 +245,19 @@ func randScalar(r *rand.Rand, fd protoreflect.FieldDescriptor) protoreflect.Valu
 }
 
 var marshalTypes = map[string]func() proto.Message{
-	"TestAllTypes":  func() proto.Message { return &testpb.TestAllTypes{} },
-	"Test3":         func() proto.Message { return &test3pb.TestAllTypes{} },
-	"KnownTypes":    func() proto.Message { return &textpb2.KnownTypes{} },
-	"Struct":        func() proto.Message { return &structpb.Struct{} },
-	"Value":         func() proto.Message { return &structpb.Value{} },
-	"ListValue":     func() proto.Message { return &structpb.ListValue{} },
-	"Any":           func() proto.Message { return &anypb.Any{} },
-	"Nests":         func() proto.Message { return &textpb2.Nests{} },
-	"Maps":          func() proto.Message { return &textpb2.Maps{} },
-	"DoubleValue":   func() proto.Message { return &wrapperspb.DoubleValue{} },
-	"FloatValue":    func() proto.Message { return &wrapperspb.FloatValue{} },
-	"StringValue":   func() proto.Message { return &wrapperspb.StringValue{} },
-	"TestAllExt":    func() proto.Message { return &testpb.TestAllExtensions{} },
+	"TestAllTypes": func() proto.Message { return &testpb.TestAllTypes{} },
+	"Test3":        func() proto.Message { return &test3pb.TestAllTypes{} },
+	"KnownTypes":   func() proto.Message { return &textpb2.KnownTypes{} },
+	"Struct":       func() proto.Message { return &structpb.Struct{} },
+	"Value":        func() proto.Message { return &structpb.Value{} },
+	"ListValue":    func() proto.Message { return &structpb.ListValue{} },
+	"Any":          func() proto.Message { return &anypb.Any{} },
+	"Nests":        func() proto.Message { return &textpb2.Nests{} },
+	"Maps":         func() proto.Message { return &textpb2.Maps{} },
+	"DoubleValue":  func() proto.Message { return &wrapperspb.DoubleValue{} },
+	"FloatValue":   func() proto.Message { return &wrapperspb.FloatValue{} },
+	"StringValue":  func() proto.Message { return &wrapperspb.StringValue{} },
+	"TestAllExt":   func() proto.Message { return &testpb.TestAllExtensions{} },
 }
 var marshalTypeNames = []string{"TestAllTypes", "TestAllTypes", "Test3", "KnownTypes", "KnownTypes", "Struct", "Value", "ListValue", "Any",
 	"Nests", "Maps", "DoubleValue", "FloatValue", "StringValue", "TestAllExt"}
@@ -277,7 +277,7 @@ func execMarshal(c core.Case) core.Case {
 		proto.SetExtension(m, testpb.E_RepeatedInt64, []int64{randInt64(r), randInt64(r)})
 	}
 	base := protojson.MarshalOptions{AllowPartial: true, UseProtoNames: o&1 != 0, UseEnumNumbers: o&2 != 0,
-		EmitUnpopulated: o&4 != 0 && core.Str(c["t"]) != "TestAllTypes" && core.Str(c["t"]) != "Test3",
+		EmitUnpopulated:   o&4 != 0 && core.Str(c["t"]) != "TestAllTypes" && core.Str(c["t"]) != "Test3",
 		EmitDefaultValues: o&8 != 0 && core.Str(c["t"]) == "KnownTypes"}
 	cb, err1 := base.Marshal(m)
 	ml := base
@@ -552,7 +552,7 @@ var limitValues = func() []*big.Int {
 func intLiteral(r *rand.Rand, v *big.Int, fractional bool) string {
 	neg := v.Sign() < 0
 	digits := new(big.Int).Abs(v).String() // no leading zeros; "0" for zero
-	shift := 0                              // value = digits * 10^shift
+	shift := 0                             // value = digits * 10^shift
 	// strip or add trailing zeros of the mantissa
 	if r.IntN(2) == 0 {
 		for len(digits) > 1 && digits[len(digits)-1] == '0' && r.IntN(4) != 0 {
